@@ -1833,8 +1833,8 @@ static int
 DFSDIsetnsdg_t(int32 file_id, DFnsdg_t_hdr *l_nsdghdr)
 {
     uint32    sz_DFnsdgle = (uint32)sizeof(struct DFnsdgle);
-    int32     aid;  /* access id */
-    int32     ndgs; /* number of ndg's */
+    int32     aid = FAIL; /* access id */
+    int32     ndgs;       /* number of ndg's */
     int32     sdgs; /* number of sdg's */
     int32     GroupID;
     uint16    intag = DFTAG_NULL;
@@ -2024,6 +2024,7 @@ DFSDIsetnsdg_t(int32 file_id, DFnsdg_t_hdr *l_nsdghdr)
         moretags = (SUCCEED == Hnextread(aid, DFTAG_WILDCARD, DFREF_WILDCARD, DF_CURRENT));
     } /* gone through the dd blocks   */
     Hendaccess(aid);
+    aid = FAIL;
 
     /* merge stb and ntb        */
     /* remove SDGNDG from stb   */
@@ -2068,6 +2069,10 @@ DFSDIsetnsdg_t(int32 file_id, DFnsdg_t_hdr *l_nsdghdr)
     l_nsdghdr->nsdg_t = ntb->next;
 
 done:
+    /* an error inside the walk over the descriptors: end the access element */
+    if (ret_value == FAIL && aid != FAIL)
+        Hendaccess(aid);
+
     /* Release the first nodes in stb and ntb  */
     free(stb);
     free(ntb);
@@ -3296,8 +3301,10 @@ DFSDIopen(const char *filename, int acc_mode)
         nsdghdr->nsdg_t = NULL;
     }
     if ((nsdghdr->nsdg_t == NULL) && (acc_mode == DFACC_READ)) {
-        if (DFSDIsetnsdg_t(file_id, nsdghdr) < 0)
+        if (DFSDIsetnsdg_t(file_id, nsdghdr) < 0) {
+            Hclose(file_id); /* the caller gets no id to close it with */
             HGOTO_ERROR(DFE_INTERNAL, FAIL);
+        }
         lastnsdg.tag = DFTAG_NULL;
         lastnsdg.ref = 0;
     }
